@@ -232,7 +232,7 @@ func (w *world) run(full bool, tier string) {
 
 	// knobs
 	w.nRecs = 1
-	if (w.prop == "C15" && c.Choose(2) == 0) || (w.prop == "C16" && !w.cleanPacing && c.Choose(4) == 0) {
+	if (w.prop == "C15" && c.Choose(2) == 0) || (w.prop == "C16" && !w.cleanPacing && c.Choose(4) == 0) || (w.prop == "C14" && c.Choose(3) == 0) {
 		w.nRecs = 2
 	}
 	w.batch = c.Choose(3) == 0
@@ -410,7 +410,7 @@ func (w *world) setup(t *simcore.Task) {
 	for i := 0; i < nw; i++ {
 		w.S.Spawn(fmt.Sprintf("writer%d", i), w.writer)
 	}
-	if w.prop == "C16" || (w.prop == "C14" && c.Choose(3) == 0) {
+	if w.prop == "C16" || (w.prop == "C14" && w.nRecs == 1 && c.Choose(3) == 0) {
 		w.S.Spawn("waiter", w.waiter)
 	}
 	if w.pruneInterval == 0 && c.Choose(4) == 0 {
